@@ -215,7 +215,7 @@ ASSUMPTIONS = ["a client call that has not returned after 400 virtual seconds (n
 BOUNDS_TEXT = {"quick": "nested submit from callable/map fn/poll fn/done-callback on every single layer over sync and thread_pool(2) (P<=1); 3-thread client programs over every single layer x 2 bases (P<=1 sync, P=0 pool)",
                "thorough": "P<=2; two-layer stacks"}
 MUST_REACH = {"*": ["nested-ok", "clients-ran", "timeout-fired-nested"]}
-BUDGET = {"quick": 150.0, "thorough": 1500.0}
+BUDGET = {"quick": 150.0, "thorough": 600.0}
 
 
 def plan(tier, seed):
